@@ -122,3 +122,37 @@ func (s *Scanner) skipToQuote(pos *Position) error {
 	pos.AdvanceN(end)
 	return nil
 }
+
+// Tok stands for a token; the two functions below are the positive and negative control of slice-rescan-in-loop.
+type Tok struct{ Start, Width int }
+
+// startOf walks the token list from the beginning on every call.
+func startOf(tokens []Tok, idx int) int {
+	n := 0
+	for _, t := range tokens {
+		n += t.Width
+		if n > idx {
+			return t.Start
+		}
+	}
+	return -1
+}
+
+// StartsRescanned calls startOf once per requested index: len(idxs) * len(tokens).
+func StartsRescanned(tokens []Tok, idxs []int) []int {
+	var out []int
+	for _, i := range idxs {
+		out = append(out, startOf(tokens, i))
+	}
+	return out
+}
+
+// StartOnce calls it once, on the way out of its loop.
+func StartOnce(tokens []Tok, idxs []int) int {
+	for _, i := range idxs {
+		if i > 0 {
+			return startOf(tokens, i)
+		}
+	}
+	return -1
+}
